@@ -344,6 +344,8 @@ def gen_rev(rng, tier):
     case = {"k": "rev", "runs": runs, "mode": mode, "pos": pos, "bs": bs}
     if enc is not None:
         case["enc"] = enc
+    if rng.random() < 0.25 and (own_codec(mode) is not None or mode == "bytesio"):
+        case["wrap"] = True
     if pos is None and binary_handle and rng.random() < 0.25:
         # default preseek=True must ignore where the cursor happens to be
         case["pre_cursor"] = rng.randint(0, len(expand(runs)))
@@ -355,7 +357,16 @@ J_OK = [[48], [55], [49, 50], [51, 48, 48], [34, 97, 98, 34], [34, 34], [34, 0xc
 # every JSON value kind as a whole record (null false true 0 "" [] {} and spaced containers)
 J_KINDS = [[110, 117, 108, 108], [102, 97, 108, 115, 101], [116, 114, 117, 101], [48], [34, 34], [91, 93], [123, 125],
            [91, 32, 93], [123, 9, 32, 125]]
-J_BAD = [[110, 117, 108], [110, 117, 108, 108, 120], [116, 114, 117], [102, 97, 108, 115], [91], [123], [93], [125],
+def _b(t):
+    return list(t.encode("utf-8"))
+
+
+# non-empty (nested) containers, the usual JSON Lines record; keys/strings over the check's alphabet
+J_CONT = [_b(t) for t in ['{"a": 1}', '{"a":1,"b":[1,2,"x y"],"n":null}', '[1, 2]', '[[], {}]', '{"\u00e9": "\u20ac"}',
+                           '[true,false,null]', '{ "x" : { "n" : [ 0 ] } }', '{"s": "", "l": [], "t": true}', '[""]',
+                           '{"b":{"b":{"b":[[[12]]]}}}', '[\t1 ,\t"a" ]']]
+J_BAD = [_b(t) for t in ['[1,]', '[1 2]', '{"a" 1}', '{"a":}', '[1,2', '{"a":1}}', '{1:2}', '[,1]', '{"a":1,}', '[01]',
+                          '{"a":1 "b":2}', '[1]]', '{"a"}', '[nul]', '["a]', '{"a":[1,}']] + [[110, 117, 108], [110, 117, 108, 108, 120], [116, 114, 117], [102, 97, 108, 115], [91], [123], [93], [125],
          [91, 93, 93], [123, 125, 49], [110, 117, 108, 108, 32, 49], [110], [120], [49, 50, 120], [48, 49], [34, 97, 98], [49, 32, 50], [0xc3, 0xa9], [34, 97, 34, 98, 34], [35],
          [34, 97, 9, 98, 34], [49, 11], [34], [44], [49, 0xc2, 0xa0]]
 J_BAD_BIN = [[34, 0xc3, 34], [0x80], [49, 0xc0, 0xaf]]
@@ -395,7 +406,8 @@ def gen_jsonl(rng, tier):
                 if mode == "latin1file" and tok in J_BAD_BIN:
                     tok = [0x80]                      # a C1 control character: "Expecting value"
             else:
-                tok = rng.choice(J_KINDS) if rng.random() < 0.4 else rng.choice(J_OK)
+                y = rng.random()
+                tok = rng.choice(J_KINDS) if y < 0.35 else rng.choice(J_CONT) if y < 0.6 else rng.choice(J_OK)
             body = lead + tok + rng.choice(WS_TRAIL)
         last = i == nlines - 1
         if last and rng.random() < 0.4:
@@ -433,6 +445,8 @@ def gen_jsonl(rng, tier):
         runs = [[sbcs_defined(mode, r[0]), r[1]] for r in runs]
         runs = [r for r in runs if r[0]]
     case = {"k": "jsonl", "runs": runs, "mode": mode, "ie": ie}
+    if rng.random() < 0.25 and (own_codec(mode) is not None or mode == "bytesio"):
+        case["wrap"] = True
     if mode not in TEXT_MODES and rng.random() < 0.2:
         case["pre_cursor"] = rng.randint(0, len(expand(runs)))
     return case
@@ -482,14 +496,17 @@ def generate(rng, tier, n):
 class _Files:
     """Fresh file objects over the same content."""
 
-    def __init__(self, content, mode):
-        self.content, self.mode, self.tmp, self.n = bytes(content), mode, None, 0
+    def __init__(self, content, mode, wrap=False):
+        self.content, self.mode, self.tmp, self.n, self.wrap = bytes(content), mode, None, 0, wrap
 
     def open(self):
         import io
         import tempfile
         if self.mode in ("bytesio", "enc_utf8", "enc_latin1"):
-            return io.BytesIO(self.content)
+            return io.BufferedReader(io.BytesIO(self.content)) if self.wrap else io.BytesIO(self.content)
+        if self.wrap and own_codec(self.mode) is not None:
+            # a text handle that is not a real file: TextIOWrapper over BytesIO
+            return io.TextIOWrapper(io.BytesIO(self.content), encoding=py_codec(own_codec(self.mode)))
         if self.tmp is None:
             base = os.path.join(os.environ.get("VERIF_BUILD") or os.path.join(
                 os.path.dirname(os.path.dirname(os.path.abspath(__file__))), "build"), "tmp_c19")
@@ -535,10 +552,10 @@ def _jobj(o):
         return {"i": o}
     if type(o) is str:
         return {"s": [ord(c) for c in o]}
-    if type(o) is list and not o:
-        return {"l": 0}
-    if type(o) is dict and not o:
-        return {"d": 0}
+    if type(o) in (list, dict):
+        import json
+        # canonical text of a container: no white space between tokens, characters as they are
+        return {"c": [ord(c) for c in json.dumps(o, separators=(",", ":"), ensure_ascii=False)]}
     raise TypeError("object outside the check's JSON alphabet: %r" % (o,))
 
 
@@ -576,7 +593,7 @@ def run_impl(case):
         if type(res) is not str:
             raise TypeError("indent returned %s" % type(res))
         return {"text": [ord(c) for c in res]}
-    files = _Files(content, case["mode"])
+    files = _Files(content, case["mode"], bool(case.get("wrap")))
     try:
         if k == "rev":
             from boltons.jsonutils import reverse_iter_lines
@@ -672,7 +689,7 @@ def _jval(x):
         return "(JObsInt %s)" % cN(x["i"])
     if "s" in x:
         return "(JObsStr %s)" % crtext(x["s"])
-    return "JObsList" if "l" in x else "JObsDict"
+    return "(JObsCont %s)" % crtext(x["c"])
 
 
 def _jres(o):
@@ -786,6 +803,8 @@ def distribution(d, case, obs):
             inc("split_has_sep_ctl(spec validation skipped)")
         d["split_max_len"] = max(d.get("split_max_len", 0), len(content))
         return
+    if case.get("wrap"):
+        inc("handle_is_a_wrapper_over_BytesIO")
     inc("mode:" + (case["mode"] if case["mode"] not in SBCS_MODES
                     else "textfile:" + c19_breaks.SBCS[int(case["mode"].split(":")[1])]))
     edges = set(_edges(case, content))
@@ -822,7 +841,7 @@ def distribution(d, case, obs):
 def sample(case, obs):
     c = expand(case["runs"])
     s = {"kind": case["k"], "content_head": c[:40], "len": len(c)}
-    for key in ("mode", "enc", "pos", "pre_cursor", "bs", "ie", "margin", "newline"):
+    for key in ("mode", "enc", "wrap", "pos", "pre_cursor", "bs", "ie", "margin", "newline"):
         if key in case:
             s[key] = case[key]
     s["obs"] = obs if len(str(obs)) < 600 else str(obs)[:600]
